@@ -8,6 +8,7 @@
 use crate::engine::{Ctx, Meta, Prop, Tier, Violation};
 use crate::lockstep::*;
 use crate::prng::Rng;
+use crate::sess::{Op, Rec, St};
 use crate::props::c03::{nontrivial_hash, reach_counts};
 
 pub struct C17;
@@ -97,6 +98,35 @@ impl Prop for C17 {
                     // tracing state at the end may differ by construction (commands); exclude flags: probe has none
                     finals.push(((t, w), final_state(&o), o.capped));
                     turns.push(((t, w), o.ticks, o.eval_calls, o.capped));
+                    // the warning rule holds at the prompt as well: an expression read of a variable
+                    // nothing ever assigned, and a touch of an array that does not exist yet
+                    let capped = o.capped;
+                    let mut s = o.sess;
+                    if !capped && s.state() == St::Idle {
+                        for (line, want_print) in [("PRINT Q8", Some("0\n")), ("Q8(2) = 5", None)] {
+                            let Some(call) = s.apply(&Op::Line(line.to_string())) else { break };
+                            ctx.calls(1);
+                            if let Some(p) = call.panicked() {
+                                return Some(Violation::new("C17/panic", format!("panic@{p}"), format!("`{line}` at the prompt unwound: {p}")));
+                            }
+                            let warns: Vec<&Rec> = call.recs.iter().filter(|r| matches!(r, Rec::Warning(..))).collect();
+                            let prints: Vec<String> = call.recs.iter().filter_map(|r| if let Rec::Print(x) = r { Some(x.clone()) } else { None }).collect();
+                            let traces = call.recs.iter().filter(|r| matches!(r, Rec::Trace(_))).count();
+                            let ok_warn = if w { warns.len() == 1 && format!("{:?}", warns[0]).contains("Q8") } else { warns.is_empty() };
+                            let ok_print = match want_print {
+                                Some(p) => prints == vec![p.to_string()],
+                                None => prints.is_empty(),
+                            };
+                            if !ok_warn || !ok_print || traces != 0 || call.err().is_some() {
+                                return Some(Violation::new(
+                                    "C17/immediate-mode-records",
+                                    format!("warnings={} got {} warnings {} traces", w, warns.len(), traces),
+                                    format!("[tracing={t} warnings={w}] `{line}` typed at the prompt after the run gave {:?} ({:?})", call.recs, call.res),
+                                ));
+                            }
+                            ctx.count("reach.immediate_mode_warning_checked");
+                        }
+                    }
                 }
                 Err(mut v) => {
                     v.detail = format!("[tracing={t} warnings={w}] {}", v.detail);
